@@ -270,6 +270,15 @@ class FnTerms:
             return self.tyof(t[2])
         if t[0] == "un":
             return self.tyof(t[2])
+        if t[0] == "deref":
+            inner = self.tyof(t[1])
+            if inner and inner.startswith("&"):
+                inner = inner[1:].lstrip()
+                return inner[4:].lstrip() if inner.startswith("mut ") else inner
+            return None
+        if t[0] == "ref" and len(t) > 2:
+            inner = self.tyof(t[2])
+            return ("&mut " if t[1] is True else "&") + inner if inner else None
         return None
 
     def project(self, t, e, b, pos):
